@@ -96,7 +96,7 @@ def format_table(run, f):
     for a in arms:
         if a["scrut"] != main:
             continue
-        region = T.dominated_region(f, a["true"])
+        region = T.dominated_region(f, a["true"], a["sw"])
         aggs = T.region_aggregates(f, region, "OutputFormat")
         if len(aggs) != 1:
             out[a["lit"]] = ("?", {}, a["line"])
@@ -483,8 +483,8 @@ def tab_cli_get_arg(run, pof):
         sw = T.switch_after(g, vt["target"], vt["dest"]["l"]) if vt["target"] is not None and not vt["dest"]["p"] else None
         ok = False
         if sw:
-            true_region = T.dominated_region(g, sw[0])
-            false_region = T.dominated_region(g, sw[1])
+            true_region = T.dominated_region(g, sw[0], vt["target"])
+            false_region = T.dominated_region(g, sw[1], vt["target"])
             oks = ok_return_blocks(g)
             # the Ok carrying the parsed value lies in the validator's true region only
             val_oks = [b for b in oks if b in true_region]
@@ -696,8 +696,8 @@ def tab_cli_defaults(run, pc, table):
         false_t = [tg for v, tg in t["targets"] if v == "0"]
         if not false_t:
             continue
-        true_reg = T.dominated_region(f, t["otherwise"])
-        false_reg = T.dominated_region(f, false_t[0])
+        true_reg = T.dominated_region(f, t["otherwise"], b)
+        false_reg = T.dominated_region(f, false_t[0], b)
         ta = [st for (bb, st) in aggs if bb in true_reg]
         fa = [st for (bb, st) in aggs if bb in false_reg]
         if not ta and not fa:
@@ -751,8 +751,8 @@ def tab_cli_derive(run):
             sw2 = T.switch_after(f, t["target"], t["dest"]["l"])
             if not sw2:
                 continue
-            treg = T.dominated_region(f, sw2[0])
-            freg = T.dominated_region(f, sw2[1])
+            treg = T.dominated_region(f, sw2[0], t["target"])
+            freg = T.dominated_region(f, sw2[1], t["target"])
             oks = ok_return_blocks(f)
             if report_error_in_region(f, treg) and err_return_in_region(f, treg) and oks and all(b in freg for b in oks):
                 guard = True
@@ -791,8 +791,8 @@ def tab_cli_groups(run):
         return
     b, t = sw
     false_t = [tg for v, tg in t["targets"] if v == "0"][0]
-    treg = T.dominated_region(f, t["otherwise"])
-    freg = T.dominated_region(f, false_t)
+    treg = T.dominated_region(f, t["otherwise"], b)
+    freg = T.dominated_region(f, false_t, b)
     prints_true = [bi for bi, c in f.calls() if bi in treg and (c.get("callee") or "") == "std::io::_print" ]
     printed_formatted = False
     for bi, c in f.calls():
